@@ -154,7 +154,12 @@ pub fn frame(name: &str) -> Option<Frame> {
         "FLOAT.SIN" | "FLOAT.COS" | "FLOAT.TAN" | "FLOAT.EXP" => fr(&[(Float, 1)], None, &[(Float, 1)], &[Float]),
         "FLOAT.FROMBOOLEAN" => fr(&[(Bool, 1)], None, &[(Bool, 1)], &[Bool, Float]),
         "FLOAT.FROMINTEGER" => fr(&[(Int, 1)], None, &[(Int, 1)], &[Int, Float]),
-        "FLOAT.RAND" => fr(&[], Some(|s| fl(s.cfg.min_random_float) < fl(s.cfg.max_random_float)), &[], &[Float]),
+        "FLOAT.RAND" => fr(
+            &[],
+            Some(|s| fl(s.cfg.min_random_float) < fl(s.cfg.max_random_float) && fl(s.cfg.min_random_float).is_finite() && fl(s.cfg.max_random_float).is_finite()),
+            &[],
+            &[Float],
+        ),
         // ---- NAME ------------------------------------------------------------------------
         "NAME.CAT" => fr(&[(Name, 2)], None, &[(Name, 2)], &[Name]),
         "NAME.QUOTE" => fr(&[], None, &[], &[Quote]),
@@ -253,7 +258,7 @@ pub fn frame(name: &str) -> Option<Frame> {
         // mean top, stddev 2nd
         "FLOATVECTOR.RAND" => fr(
             &[(Int, 1), (Float, 2)],
-            Some(|s| s.i[0] >= 0 && fl(s.f[1]) >= 0.0 && fl(s.f[1]).is_finite() && fl(s.f[0]).is_finite()),
+            Some(|s| s.i[0] >= 0 && fl(s.f[1]) >= 0.0 && fl(s.f[1]).is_finite()),
             &[(Int, 1), (Float, 2)],
             &[Int, Float, FV],
         ),
